@@ -560,6 +560,9 @@ def handle : List Sexp → Option String
       let t ← tyOf t
       let v ← valOf v
       some s!"ok {pyStr (toTreeG (give = "1") t v)}"
+  | [.atom "DEFAULTSOK", .atom give, t] => do
+      let t ← tyOf t
+      some s!"ok {if defaultsOk (give = "1") t then 1 else 0}"
   | [.atom "ENCPY", .atom codec, .atom dm, .atom chunk, t, p] => do
       let cfg ← cfgOf codec
       let t ← tyOf t
